@@ -48,12 +48,21 @@ def pred_types():
 _tds = {}
 
 
-def td_class(name, fields):
-    from typing import TypedDict
+def td_class(name, fields, optional=(), nontotal=False):
+    """a TypedDict class; `optional` fields are declared NotRequired[...]; with `nontotal` the class is total=False and the
+    other fields are declared Required[...]"""
+    from typing import NotRequired, Required, TypedDict
 
-    key = json.dumps([name, fields])
+    key = json.dumps([name, fields, list(optional), bool(nontotal)])
     if key not in _tds:
-        _tds[key] = TypedDict(name, {f: mk_ty(t) for f, t in fields})
+        ann = {}
+        for f, t in fields:
+            th = mk_ty(t)
+            if f in optional:
+                ann[f] = th if nontotal else NotRequired[th]
+            else:
+                ann[f] = Required[th] if nontotal else th
+        _tds[key] = TypedDict(name, ann, total=not nontotal)
     return _tds[key]
 
 
@@ -188,7 +197,7 @@ def fresh():
 
 def mk_ty(t):
     k = t[0]
-    if k in ("lit", "union", "list", "dict", "tuple", "tuplevar", "set"):
+    if k in ("lit", "union", "list", "dict", "tuple", "tuplevar", "set", "ann"):
         fresh()
     if k in ("str", "int", "float", "bool"):
         return {"str": str, "int": int, "float": float, "bool": bool}[k]
@@ -224,12 +233,22 @@ def mk_ty(t):
         a = mk_ty(t[1])
         fresh()
         return Set[a]
+    if k == "ann":          # Annotated[T, <metadata that is no validator>]: the hint means T
+        a = mk_ty(t[1])
+        fresh()
+        return typing.Annotated[a, "meta"]
     raise ValueError("type kind " + k)
 
 
 def check_ty(t, th):
     """fail closed: typing must not have flattened / deduplicated / reordered what the case says"""
     k = t[0]
+    if k == "ann":
+        if typing.get_origin(th) is not typing.Annotated or th.__metadata__ != ("meta",):
+            raise ValueError("typing changed the Annotated %r -> %r" % (t, th))
+        return check_ty(t[1], th.__origin__)
+    if typing.get_origin(th) is typing.Annotated:
+        raise ValueError("unexpected Annotated %r -> %r" % (t, th))
     args = getattr(th, "__args__", None)
     if k == "union":
         if args is None or len(args) != len(t[1]) or typing.get_origin(th) is not Union:
@@ -297,7 +316,7 @@ def run_query(q):
         fresh()
         th = mk_ty(q["ty"])
         check_ty(q["ty"], th)
-        pyval = None if q["ch"] == "argv" else mk_val(q["val"])
+        pyval = None if q["ch"] in ("argv", "nested") else mk_val(q["val"])
     except Exception as e:   # noqa
         return ["skip", "%s: %s" % (type(e).__name__, str(e)[:200])]
     p = ArgumentParser(exit_on_error=False)
@@ -308,6 +327,8 @@ def run_query(q):
     try:
         if q["ch"] == "argv":
             r = p.parse_args(["--k=" + q["val"][1]])
+        elif q["ch"] == "nested":        # --k.<key>=<text> on a Dict-typed key
+            r = p.parse_args(["--k." + q["key"] + "=" + q["val"][1]])
         else:
             r = p.parse_object({"k": pyval})
     except ArgumentError:
@@ -327,7 +348,7 @@ def run_xquery(q):
     try:
         fresh()
         oc = opaque_classes()
-        hints = [oc[m[1]] if m[0] == "opq" else (td_class(m[1], m[2]) if m[0] == "td" else mk_ty(m)) for m in q["ms"]]
+        hints = [oc[m[1]] if m[0] == "opq" else (td_class(m[1], m[2], m[3] if len(m) > 3 else (), len(m) > 4 and m[4] == "nontotal") if m[0] == "td" else mk_ty(m)) for m in q["ms"]]
         REC_IDS.clear()
         for m, h in zip(q["ms"], hints):
             if m[0] in ("opq", "td"):
